@@ -21,9 +21,12 @@ import (
 // an in-memory listener whose connections report an arbitrary peer address; reference policy
 // written with net/netip.
 
-var c10Peers = []string{"127.0.0.1", "10.0.0.1", "10.1.2.3", "192.168.1.5", "203.0.113.7", "::1", "::ffff:10.0.0.1", "2001:db8::1", "fe80::1%eth0"}
+// peers, including other spellings of addresses that appear as single-address entries (IPv4-mapped,
+// uncompressed, upper-case hex): the decision is about the address, not about its text
+var c10Peers = []string{"127.0.0.1", "10.0.0.1", "10.1.2.3", "192.168.1.5", "203.0.113.7", "::1", "::ffff:10.0.0.1", "2001:db8::1", "fe80::1%eth0",
+	"::ffff:203.0.113.7", "::ffff:127.0.0.1", "0:0:0:0:0:0:0:1", "2001:DB8::1", "2001:db8:0:0:0:0:0:1"}
 
-var c10Entries = []string{"10.0.0.0/8", "10.1.0.0/16", "127.0.0.1", "::1", "2001:db8::/32", "0.0.0.0/0", "10.0.0.0/33", "abc", "", "  ", "10.0.0.0/8 "}
+var c10Entries = []string{"10.0.0.0/8", "10.1.0.0/16", "127.0.0.1", "::1", "2001:db8::/32", "0.0.0.0/0", "10.0.0.0/33", "abc", "", "  ", "10.0.0.0/8 ", "203.0.113.7", "2001:db8::1", "203.0.113.7/32"}
 
 func peerAddr(p string) string {
 	if strings.Contains(p, ":") {
@@ -332,7 +335,7 @@ func TestVerifC10(t *testing.T) {
 		}
 	}
 	r.AddScenario(vres.Scenario{Name: "admin-access-control", Engine: "W", Evaluations: evals, Distinct: int64(outs.N()), Outcomes: outs.N(),
-		Rule:  "IP product: allow-list x deny-list (all sub-lists up to the size bound of 8 entries incl. overlapping and two malformed ones) x 9 peer addresses (IPv4, IPv6, IPv4-mapped, zoned) x 6 forged-header variants x endpoints; token product: token configured or not x 11 Authorization spellings x 10 endpoint/method pairs x peers; judged by a net/netip reference policy; distinct = (reference verdict, served) classes",
+		Rule:  "IP product: allow-list x deny-list (all sub-lists up to the size bound of 8 entries incl. overlapping and two malformed ones) x 14 peer addresses (IPv4, IPv6, IPv4-mapped, zoned, non-canonical spellings) x 6 forged-header variants x endpoints; token product: token configured or not x 11 Authorization spellings x 10 endpoint/method pairs x peers; judged by a net/netip reference policy; distinct = (reference verdict, served) classes",
 		Bound: fmt.Sprintf("sub-lists of size <= %d (%d x %d list pairs)", maxList, len(lists), len(lists)), Exhaustive: true, Sample: sample,
 		Extra: map[string]interface{}{"wall_s": time.Since(start).Seconds()}})
 }
